@@ -199,6 +199,39 @@ Theorem box_collapse_shortest : forall q l, expand_quad l = Some q -> (length (c
 Proof. exact box_quad_shortest_all. Qed.
 Print Assumptions box_collapse_shortest.
 
+From V Require Import C12.RadiusTracker C12.RadiusSpec C12.RadiusMain.
+(* BORDER-RADIUS COLLAPSING.  radius_process is the faithful model of the
+   border-radius tracking in processDeclarations (borderRadiusTracker: four
+   corners each with two radii, ruleIndex and wasSingleRule, the important flag,
+   unit-safety status, updateCorner's blanking, mangleCorners with the optional
+   "/ vertical radii" list, mangleCorner's in-place rewrite (0px -> 0, two equal
+   radii merged into one, the second radius copied before the rewrite),
+   compactRules writing "h{1,4}" or "h{1,4} / v{1,4}" at the greatest tracked
+   index; tied to the Go code by radius_cases).  The specification rsets /
+   corner_value is written from CSS Backgrounds 3: a corner has a horizontal and
+   a vertical radius, a missing second value or second list repeats the first.
+   For EVERY declaration list (keys well-typed), in EVERY browser environment
+   (which non-safe units, which unitless numbers, which opaque declarations it
+   accepts) and for every corner: the cascaded value of the corner (last valid
+   !important declaration, else last valid normal one; both radii; 0px = 0) is
+   the same before and after. *)
+Theorem radius_collapse_keeps_corners : forall l, wf_keys l -> forall e c,
+  corner_value e (radius_process l) c = corner_value e l c.
+Proof. exact radius_collapse_keeps_corners_all. Qed.
+Print Assumptions radius_collapse_keeps_corners.
+
+(* stronger: each importance layer separately *)
+Theorem radius_collapse_keeps_layers : forall l, wf_keys l -> forall e imp c,
+  rlayer e imp c (radius_process l) = rlayer e imp c l.
+Proof. exact radius_layers_all. Qed.
+Print Assumptions radius_collapse_keeps_layers.
+
+(* every declaration of another property survives, unchanged and in the same relative order *)
+Theorem radius_collapse_keeps_others : forall l, wf_keys l ->
+  filter is_other (radius_process l) = filter is_other l.
+Proof. exact radius_collapse_keeps_others_all. Qed.
+Print Assumptions radius_collapse_keeps_others.
+
 (* DUPLICATE DECLARATIONS AT A DISTANCE.  The back-to-front duplicate removal over
    a declaration list keeps exactly the LAST occurrence of every declaration,
    where identity includes the property, the value and !important: a declaration
